@@ -272,16 +272,19 @@ impl Check for Classification {
     }
 }
 
+pub const E2E: super::e2e::EndToEnd = super::e2e::EndToEnd { part: "end-to-end-binary-vs-handler", methods: &["textDocument/semanticTokens/full"] };
+
 pub fn checks() -> Vec<Box<dyn Check>> {
-    vec![Box::new(AnyDocument), Box::new(Classification)]
+    vec![Box::new(AnyDocument), Box::new(Classification), Box::new(E2E)]
 }
 
 pub fn run(ctx: &Ctx) -> i32 {
-    let parts = vec![
+    let mut parts = vec![
         crate::corpus_part(ctx, &checks()),
         run_pbt(ctx, &AnyDocument, ctx.n(20_000, 300_000)),
         run_pbt(ctx, &Classification, ctx.n(20_000, 300_000)),
     ];
+    parts.push(run_pbt(ctx, &E2E, ctx.n(400, 8_000)));
     finish(
         ctx,
         parts,
